@@ -386,6 +386,29 @@ fn record_one(rng: &mut Rng, case: u64, steps: usize, init: usize, extras: bool,
                 ev.insert("ev".into(), json!("merge"));
                 ev.insert("panic".into(), json!(r.is_err()));
             }
+            9 if extras && rng.chance(1, 2) => {
+                // a new child of a kind outside the placement model: USER_RIGHTS or IF_DATA
+                let module = &mut rec.a2l.project.module[0];
+                if rng.chance(1, 2) {
+                    let id = format!("newuser{}", rec.next_rank);
+                    rec.next_rank += 1;
+                    module.user_rights.push(a2lfile::UserRights::new(id.clone()));
+                    ev.insert("ev".into(), json!("push_new"));
+                    ev.insert("kind".into(), json!("USER_RIGHTS"));
+                    ev.insert("name".into(), json!(id));
+                } else {
+                    let tag = format!("NV{}", rec.next_rank);
+                    rec.next_rank += 1;
+                    let frag = a2lfile::load_fragment(&format!("/begin IF_DATA {tag} 1 2 /end IF_DATA"), None).expect("fragment loads");
+                    let mut d = frag.if_data.into_iter().next().expect("one IF_DATA");
+                    d.get_layout_mut().uid = 0;
+                    d.get_layout_mut().line = 0;
+                    module.if_data.push(d);
+                    ev.insert("ev".into(), json!("push_new"));
+                    ev.insert("kind".into(), json!("IF_DATA"));
+                    ev.insert("name".into(), json!(tag));
+                }
+            }
             6..=8 => {
                 let r = guarded(|| rec.a2l.sort_new_items());
                 ev.insert("ev".into(), json!("sort_new_items"));
